@@ -287,7 +287,7 @@ def partitions(rng, total, marks, big, coarse):
     if total == 0:
         return ['0', '0,0']
     if coarse:
-        # long OPC streams (the OPC model is quadratic in the buffered length): coarse partitions only
+        # quick tier: long streams get coarse partitions only
         ps = [str(total)]
         for step in (rng.choice([509, 997]), rng.choice([4093, 516, 517]), 65536):
             ps.append(part_from_cuts(total, range(step, total, max(step, total // 150))))
@@ -345,9 +345,9 @@ def gen_cases(rng, tier):
             if proto != 'opc' and len(st) > 50000:
                 st = st[:50000]
             cap = rng.choice([0, 0, 0, 0, 1, 2, 3, 7, 100])
-            coarse = len(st) > 6000 and (proto == 'opc' or quick)
-            # thorough: long usbpro/robe/acn streams are also replayed one byte at a time
-            strided = coarse or (big and (quick or proto == 'opc'))
+            coarse = len(st) > 6000 and quick
+            # thorough: long streams (all protocols) are also replayed one byte at a time
+            strided = coarse or (big and quick)
             yield '%s %d %s %s' % (proto, cap, hx(st), '/'.join(partitions(rng, len(st), marks, strided, coarse)))
     for i in range(300 if quick else 4000):
         big = (i % 40 == 39)
@@ -356,6 +356,15 @@ def gen_cases(rng, tier):
         cap = rng.choice([0, 0, 0, 0, 1, 2, 3, 7, 100])
         yield 'rpc %d %s %s %s' % (cap, hx(st), '/'.join(partitions(rng, len(st), marks, coarse or (big and quick), coarse)),
                                    ','.join(hx(b) for b in bad) if bad else '-')
+    # the largest OPC frame (65535 bytes of data: the buffer grows to 65539) and its neighbours, one
+    # byte at a time, followed by a small frame (thorough only: 65 k read calls per partition)
+    if not quick:
+        for n in (65535, 65534, 65532, 40000):
+            st = opc_frame(7, 0, rbytes(rng, n, (0, 1, 2))) + opc_frame(1, 0, [5, 6, 7]) + opc_frame(2, 1, [])
+            total = len(st)
+            ps = [','.join(['1'] * total), str(total), part_from_cuts(total, [3, 4, 5, total - 12, total - 11, total - 4]),
+                  part_from_cuts(total, range(516, total, 516))]
+            yield 'opc 0 %s %s' % (hx(st), '/'.join(ps))
     # one long-lived channel receiving several large frames (buffer state is carried from message to
     # message): sizes around 512 kB and 1 MB, in increasing, decreasing and mixed order
     big_sizes = [524287, 524288, 524289, 600000, 700000, 1048575, 1048576]
@@ -420,23 +429,25 @@ ASSUMPTIONS = ['the kernel delivers the bytes of a pipe/socket in order',
 TRUSTED = ['modelled rather than verified: ConnectedDescriptor::Receive (POSIX branch), '
            'BaseUsbProWidget::ReceiveMessage/DescriptorReady, BaseRobeWidget::ReceiveMessage/DescriptorReady, '
            'OPCServer::SocketReady/RxState::CheckSize, IncomingStreamTransport::Receive/ReadRequiredData/'
-           'IncreaseBufferSize/Handle*/Enter* (libs/acn/TCPTransport.cpp, with a recording inflator), RpcChannel::DescriptorReady/ReadHeader (correspondence only); the receive buffers are modelled as the list of bytes '
+           'IncreaseBufferSize/Handle*/Enter* (libs/acn/TCPTransport.cpp, with a recording inflator), RpcChannel::DescriptorReady/ReadHeader; the receive buffers are modelled as the list of bytes '
            'stored so far plus an explicit capacity check on every store; SOM/EOM/size limits regenerated '
            'into Gen.v',
            'reference framers ref_usb/ref_robe/ref_opc/ref_acn/ref_rpc are hand-written from the wire formats (their '
            'resynchronisation rules are stated in Model.v)',
            'read() interposed with ld --wrap in the harness only']
-LEVEL_TEXT = ('Coq theorems over executable models of the code: ConnectedDescriptor::Receive (any script of read() '
-              'results: no store outside the buffer, count = sum of successful reads, buffer prefix = their '
-              'concatenation); Enttec USB Pro, Robe, the Open Pixel Control server and the ACN TCP transport '
-              '(IncomingStreamTransport incl. buffer growth and stream invalidation): for every byte stream and EVERY '
-              'partition into reads the delivered message list equals a reference framer written from the wire format, '
-              'no store outside the receive buffer, the read loop terminates (c10_{usbpro,robe,opc,acn}_chunk_free / '
-              '_bounds); any interleaving of data arrivals and callback invocations of a level-triggered poller '
-              'delivers the same (c10_schedule_*). PARTIAL: the RPC channel has no theorem in this check (its framing '
-              'theorem is c09_dispatch in props/C09); here a model of the fixed ReadHeader/DescriptorReady and a '
-              'reference framer ref_rpc are compared with the real RpcChannel (frames dispatched by type, channel '
-              'closed or not, after every chunk) on generated streams under 6 partitions incl. one byte at a time.')
+LEVEL_TEXT = ('Coq theorems over executable models of the code, for all five framers the property names and for '
+              'ConnectedDescriptor::Receive. Receive: any script of read() results, no store outside the buffer, count = '
+              'sum of successful reads, buffer prefix = their concatenation. Enttec USB Pro, Robe, the Open Pixel '
+              'Control server, the ACN TCP transport (IncomingStreamTransport incl. buffer growth and stream '
+              'invalidation) and the RPC channel (fixed ReadHeader/DescriptorReady, the message parser verdict an '
+              'arbitrary function): for every byte stream and EVERY partition into reads the delivered message list '
+              '(for RPC also whether the channel is closed) equals a reference framer written from the wire format, no '
+              'store outside the receive buffer, the read loop terminates (c10_{usbpro,robe,opc,acn,rpc}_chunk_free, '
+              'c10_*_bounds); any interleaving of data arrivals and callback invocations of a level-triggered poller '
+              'delivers the same (c10_schedule_*). The OPC theorems are stated for the linear-time machine the '
+              'correspondence runs and rest on a proved simulation of the branch-for-branch model '
+              '(c10_opc_fast_refines). Not covered by a theorem: RpcChannel buffer (re)allocation (C09) and the '
+              'protobuf parser itself.')
 LEVEL_NOTE = ('Trusted: Coq kernel, extraction (ExtrOcamlBasic), OCaml/C++ glue, the ld --wrap=read interposer, generator '
               'coverage of the correspondence (model = code is validated by differential testing on pipes/socket pairs '
               'under ASan/UBSan, not proved); assumes in-order byte delivery; receive buffers are modelled as the list '
